@@ -312,7 +312,7 @@ def loopback_case(ctx, rng, idx):
             rounds = loop.until(done, [("S.serviceAll", s_all)] +
                                 [("C%d.serviceAll" % i, c_all(c)) for i, c in enumerate(net.clients)] +
                                 [("S.serviceAll", s_all)],
-                                max_rounds=200 + total // 1024)
+                                max_rounds=600 + total // 256)
             ctx.event(loop.calls)
             desc["drain_rounds"] = rounds
             ok_final = check_net(ctx, net, wit, final=True)
@@ -325,18 +325,36 @@ def loopback_case(ctx, rng, idx):
                         net.queue_up(i, rng.randint(1, 40))
                     for _ in range(6):
                         net.clients[i].serviceTxPkts()
-                    if not net.clients[i].txbs and not net.clients[i].txPkts:
+                    if not net.clients[i].txbs and not net.clients[i].txPkts and not net.clients[i].handler.txes:
+                        h = net.clients[i].handler
+                        desc.setdefault("at_close", {})[i] = {
+                            "client_socket_accepted": sum(len(d) for a, d in net.cwl[i].tx), "queued": sum(len(d) for d in net.to_server[i]),
+                            "client_read": sum(len(d) for a, d in net.cwl[i].rx), "server_queued_for_it": sum(len(d) for d in net.to_client[i]),
+                            "cutoff": h.cutoff, "connected": h.connected}
                         net.clients[i].close()
                         ctx.hit("client_closed_right_after_its_last_packets")
                 desc["left"] = leaving
-                for _ in range(12):
+                closed = sorted(desc.get("at_close", {}))       # (those that had flushed everything and did close)
+                cas = {i: net.clients[i].handler.ca for i in closed}
+                for k in range(400):
+                    # until the server has seen the end of every closed connection (its entry is gone): the last segment
+                    # and the FIN may take a few milliseconds of real time on a loaded machine
                     loop.call("S.serviceAll", s.serviceAll)
-                    time_mod.sleep(0.0005)
-                for i in leaving:
+                    if k >= 3 and not any(ca in s.handler.ixes for ca in cas.values()):
+                        break
+                    time_mod.sleep(0.0005 if k < 40 else 0.005)
+                for i in closed:
+                    if cas[i] in s.handler.ixes:
+                        ctx.hit("farewell_end_not_seen_by_server_in_time")      # no verdict: the end has not arrived yet
+                        continue
+                    ctx.hit("farewell_judged")
                     up_q, up_wire, up_pkts, dn_q, dn_wire, dn_pkts = net.views(i)
                     ctx.check(up_wire == up_q and up_pkts == up_wire, "TcpServerStack/rx/last-bytes-before-close-not-in-a-packet",
                               "bytes a client sent right before closing were received but not delivered in a received packet",
-                              lambda i=i: dict(wit(), client=i, **cmp_wit("queued", up_q, "packets", up_pkts)))
+                              lambda i=i, up_q=up_q, up_wire=up_wire, up_pkts=up_pkts: dict(
+                                  wit(), client=i, server_socket_received=len(up_wire), server_entries=len(s.handler.ixes),
+                                  left_in_rxbs=[len(ix.rxbs) for ix in s.handler.ixes.values()],
+                                  **cmp_wit("queued", up_q, "packets", up_pkts)))
             nontrivial = all(net.to_server[i] and net.to_client[i] for i in range(nclients)) and \
                 (partial["client"] + partial["server"] > 0)
             if partial["client"]:
@@ -542,4 +560,4 @@ def run(ctx):
     ctx.floor("double_server_partial_sends", ctx.pick(500, 2500))
     ctx.floor("distinct_nontrivial", ctx.pick(2000, 10000))
     ctx.floor("same_packet_object_queued_more_than_once", ctx.pick(20, 600))
-    ctx.floor("client_closed_right_after_its_last_packets", ctx.pick(20, 600))
+    ctx.floor("farewell_judged", ctx.pick(20, 600))
